@@ -2,7 +2,8 @@
 one line, and require Trace_Network.tla to name the expected clause on exactly that line;
 delete a field the spec reads -> the trace is not consumed (MachineryError).
 Run:  PYTHONPATH=${VERIF_REPO:-/repo}:/verif /venv/bin/python -W ignore selftest/X02/corrupt.py
-(meaningful on a tree where ./check X02 is green, i.e. with the proposed X02 fixes applied)."""
+(the recorded calls use no cutoff, include_TS=True and '+', so the base trace is clean on the
+unchanged tree as well as on the fixed one)."""
 import copy
 import sys
 
@@ -20,10 +21,11 @@ def record():
     rec = x02.Recorder(R, net)
     q = {'s': 1, 't': [4], 'c': 0, 'units': 'eV', 'T': 300.0}
     events.append(x02.do_minspan(R, net, rec, q)[0])                       # 1
-    events.append(x02.do_minspan(R, net, rec, dict(q, t=[3], c=4))[0])     # 2
+    events.append(x02.do_minspan(R, net, rec, dict(q, s=2))[0])            # 2  (2-3-4 and 2-5-1-6-3-4)
     events.append(x02.do_diagram(R, net, rec, q)[0])                       # 3
     events.append(x02.do_diagram(R, net, rec, dict(q, maxp=1))[0])         # 4
     events.append(x02.do_span(R, net, rec, [1, 6, 3, 4], 'eV', 300.0))     # 5
+    events.append(x02.do_minspan(R, net, rec, dict(q, t=[3]))[0])          # 6  (1-6-3 and 1-5-2-3)
     return events
 
 
@@ -64,8 +66,18 @@ def corruptions(base):
     out.append(('MinIsLeast', 1, ev, set()))
     ev, e = mk(1); e['out'] = bump(e['out'], -1e-3)
     out.append(('MinIsLeast', 1, ev, set()))
-    ev, e = mk(2); e['c'] = 3
+    # a six-state pathway although at most four states were asked for (and not the edge-count set)
+    ev, e = mk(2); e['c'] = 4
     out.append(('CutoffStates', 2, ev, set()))
+    # cutoff 3 and exactly the pathways with <= 3 EDGES: the known deviation is named as such
+    ev, e = mk(6); e['c'] = 3
+    out.append(('CutoffStates_KnownEdgeCount', 6, ev, set()))
+    # include_TS = False asked for, the graph is exactly the include_TS = True graph
+    ev, e = mk(0); e['inc'] = False
+    out.append(('GraphIsNetwork_KnownTSKept', 0, ev, set()))
+    # ... but not when anything else differs as well
+    ev, e = mk(0); e['inc'] = False; e['edges'].append([2, 4])
+    out.append(('EdgesExact', 0, ev, {'NodesExact', 'PathsComplete', 'Selection'}))
     ev, e = mk(1); e['finite'] = False
     out.append(('Finite', 1, ev, set()))
     ev, e = mk(1); e['raised'] = 'ValueError: x'
